@@ -31,7 +31,9 @@ def repo_modules():
 # --------------------------------------------------------------------------
 EXOTIC_WORDS = [u'Übermaß', u'日本', u'a&b', u'<t>', u'"q"', u"it's",
                 u'naïve', u'x' * 7, u'y' * 8, u'z' * 15, u'v' * 16, u'#5000', u'%s',
-                u'é', u'Ä']
+                u'é', u'Ä',
+                # space characters that are not ASCII whitespace: characters of a word in every format
+                u'10\u00a0000', u'a\u3000b']
 
 
 class Atoms(object):
